@@ -50,6 +50,12 @@ func VH_C11_promotion() {
 	}
 	last0 := r.lastLogIndex
 	r.promoteThreshold = 1000
+	// a round that is already finished when the step starts: how long it took is known beforehand
+	fin0 := rd != nil && rd.finished()
+	var dur0 time.Duration
+	if fin0 {
+		dur0 = rd.Duration()
+	}
 	vWatchConfigAppends(r, l)
 	l.checkConfigAction(nil, cfg, st)
 	promoted := false
@@ -65,6 +71,11 @@ func VH_C11_promotion() {
 		// (storeEntry restarts finished rounds for the entry it appends, so the duration is not observable afterwards;
 		// what is observable: a node that lacks entries can only have been promoted out of a finished round)
 		vAssert(vOr(last0 <= st.matchIndex, vAnd(rd != nil, true)), "P-caught-up-or-had-a-round")
+		if fin0 {
+			// the promote threshold: a node that still lacks entries is promoted only out of a round that was fast
+			// enough; after a slow one it has to go through another round first
+			vAssert(last0 <= st.matchIndex || dur0 <= r.promoteThreshold, "P-slow-round-with-entries-missing-is-not-promoted")
+		}
 	} else {
 		vReach("not-yet")
 	}
